@@ -460,7 +460,7 @@ func Send(ch interface{}) {
 	if v.IsValid() && !v.IsNil() && v.Cap() == 0 && !s.isClosed(v) {
 		s.EngineErr = "unsupported: send on an unbuffered channel at " + callerString()
 	}
-	s.point("send", func() bool { return sendReady(s, v) })
+	s.point("send", chanPred{s, v, true}.ok)
 }
 
 // Recv is called immediately before a native `<-ch`.
@@ -472,7 +472,7 @@ func Recv(ch interface{}) {
 		return
 	}
 	v := reflect.ValueOf(ch)
-	s.point("recv", func() bool { return recvReady(s, v) })
+	s.point("recv", chanPred{s, v, false}.ok)
 }
 
 // Close replaces the builtin close.
@@ -561,7 +561,7 @@ func (m *Mutex) Lock() {
 		m.real.Lock()
 		return
 	}
-	s.point("lock", func() bool { return !m.held })
+	s.point("lock", m.free)
 	m.held = true
 	raceAcquire(unsafe.Pointer(&m.hb))
 }
@@ -622,7 +622,7 @@ func (m *RWMutex) Lock() {
 		m.real.Lock()
 		return
 	}
-	s.point("wlock", func() bool { return !m.writer && m.readers == 0 })
+	s.point("wlock", m.wfree)
 	m.writer = true
 	raceAcquire(unsafe.Pointer(&m.hb))
 }
@@ -644,7 +644,7 @@ func (m *RWMutex) RLock() {
 		m.real.RLock()
 		return
 	}
-	s.point("rlock", func() bool { return !m.writer })
+	s.point("rlock", m.rfree)
 	m.readers++
 	raceAcquire(unsafe.Pointer(&m.hb))
 }
@@ -688,7 +688,7 @@ func (w *WaitGroup) Wait() {
 		w.real.Wait()
 		return
 	}
-	s.point("wg.wait", func() bool { return w.n <= 0 })
+	s.point("wg.wait", w.zero)
 	raceAcquire(unsafe.Pointer(&w.hb))
 }
 
@@ -819,3 +819,32 @@ func await(t *thread) {
 	}
 	<-t.wake
 }
+
+// Predicates are method values of uninstrumented methods rather than closures: a closure that is
+// stored and called later is compiled as an ordinary (race-instrumented) function even inside a
+// //go:norace function, and its reads of shim state would be reported by the race detector.
+type chanPred struct {
+	s    *Sched
+	v    reflect.Value
+	send bool
+}
+
+//go:norace
+func (p chanPred) ok() bool {
+	if p.send {
+		return sendReady(p.s, p.v)
+	}
+	return recvReady(p.s, p.v)
+}
+
+//go:norace
+func (m *Mutex) free() bool { return !m.held }
+
+//go:norace
+func (m *RWMutex) wfree() bool { return !m.writer && m.readers == 0 }
+
+//go:norace
+func (m *RWMutex) rfree() bool { return !m.writer }
+
+//go:norace
+func (w *WaitGroup) zero() bool { return w.n <= 0 }
